@@ -6,6 +6,8 @@ pub struct Meta {
     pub max_paths_quick: u64,
     pub max_paths_thorough: u64,
     pub dense_variant: Option<u32>,
+    /// cases whose variant has this bit set run in dense-constant mode
+    pub dense_mask: Option<u32>,
     pub functions: &'static [&'static str],
     pub bounds: &'static str,
     pub stubs: &'static [&'static str],
@@ -30,6 +32,7 @@ pub fn meta(prop: &str) -> Meta {
         max_paths_quick: 4096,
         max_paths_thorough: 65536,
         dense_variant: None,
+        dense_mask: None,
         functions: &[],
         bounds: "",
         stubs: COMMON_STUBS,
@@ -38,6 +41,7 @@ pub fn meta(prop: &str) -> Meta {
     };
     match prop {
         "C01" => Meta {
+            dense_mask: Some(0x100),
             functions: &[
                 "frost_core::keys::split", "frost_core::keys::KeyPackage::try_from", "frost_core::keys::SecretShare::verify", "frost_core::keys::dkg::part1",
                 "frost_core::keys::dkg::part2", "frost_core::keys::dkg::part3", "frost_core::round1::commit", "frost_core::SigningPackage::new",
